@@ -27,6 +27,9 @@ STRUCTS = {
            F("flag", "bool", token=0x02ff)],
     "DH": [F("cores", "str", key="core", dup="dup"), F("checksum", "str", key="chk", dup="last"), F("opt_q", ("u", 32), miss=("def", "(none)")),
            F("opt_c", "str", miss=("def", "(none)")), F("count", ("u", 32), key="n", miss=("def", "(u 0)"))],
+    "DI": [F("sub", ("derived", "DJ"), token=0x2f00), F("core", "str", dup="dup", token=0x2f01), F("next", ("u", 32), miss=("def", "(u 0)"), token=0x2f02),
+           F("req", "bool", token=0x2f04)],
+    "DJ": [F("id", ("u", 32), token=0x2f03), F("tag", "str", miss=("def", "(str -)"), token=0x2f05)],
     "DSub": [F("id", ("u", 32)), F("tag", "str", miss=("def", "(str -)")), F("vals", ("u", 8), key="val", dup="dup")],
     "DC": [F("name", "str"), F("subs", ("derived", "DSub"), key="sub", dup="dup"), F("opt_sub", ("derived", "DSub"), miss=("def", "(none)")),
            F("date", "date", dup="last", miss=("def", "(date 1444 11 11 0)")), F("level", ("u", 8), key="lvl", miss=("def", "(u 7)"))],
@@ -164,14 +167,17 @@ def gen_fit(rng, sh, st, bad=0.0):
             mult = [min(m, 1) if f["dup"] == "once" else m for f, m in zip(S, mult)]
         occ = [i for i, m in enumerate(mult) for _ in range(m)]
         rng.shuffle(occ)
-        return build_obj(rng, sh[1], occ, st, unknowns=rng.choice([0, 0, 1]), bad=0.0)
+        # a nested derived struct sometimes holds, as an unknown field, a key that means something to its PARENT
+        # (an ignored key must not influence how the enclosing struct reads the same key afterwards)
+        return build_obj(rng, sh[1], occ, st, unknowns=rng.choice([0, 0, 1, 2]), bad=0.0, foreign=st.get("_parent_keys"))
     raise RuntimeError(sh)
 
 
-def build_obj(rng, sname, order, st, unknowns, bad):
+def build_obj(rng, sname, order, st, unknowns, bad, foreign=None):
     S = STRUCTS[sname]
     tokened = S[0]["token"] is not None
     fields = []
+    st = dict(st, _parent_keys=[(f["key"], f["token"]) for f in S])
     for i in order:
         f = S[i]
         val = gen_fit(rng, f["sh"], st, bad)
@@ -184,7 +190,10 @@ def build_obj(rng, sname, order, st, unknowns, bad):
         fields.append(fld)
     keys = set(f["key"] for f in S)
     for _ in range(unknowns):
-        if rng.random() < 0.3:
+        forced_id = None
+        if foreign and rng.random() < 0.6:
+            key, forced_id = rng.choice(foreign)
+        elif rng.random() < 0.3:
             cand = [f["name"] for f in S if f["key"] != f["name"]]           # the aliased field's own name is an unknown key
             key = rng.choice(cand) if cand else D.gen_ident(rng)
         else:
@@ -196,6 +205,10 @@ def build_obj(rng, sname, order, st, unknowns, bad):
             T = ("str",)
         val = D.gen_value(rng, T, st)
         fld = D.mk_field(rng, key, val, dict(st, ops=False))
+        if foreign and (key, forced_id) in foreign:
+            # same spelling as the parent uses: a token id key
+            fld["kb"] = "ID"
+            fld["kid"] = forced_id if forced_id is not None else D.tok_id(rng, key, st)
         if tokened and fld["kb"] == "ID" and fld["kid"] in [f["token"] for f in S]:
             continue
         fields.insert(rng.randrange(len(fields) + 1), fld)
